@@ -269,6 +269,20 @@ def run_hist(case):
             batch, isw = batch
         rows = np.asarray(batch.observation).reshape(bs, -1)[:, :2]
         ids = rows[:, 0]
+        if multi:
+            # how the wrapper draws the task is its own business: identify the
+            # task the batch actually came from by its (globally unique) rows
+            owner = [tt for tt in range(n_tasks) if len(sb(tt)) and np.any(np.all(
+                np.asarray(sb(tt).buffer["observation"][: len(sb(tt))],
+                           dtype=np.float32) == rows[0][None], axis=1))]
+            if len(owner) == 1 and owner[0] != t:
+                t = owner[0]
+                b, w = sb(t), weights(t)
+                if not w.sum() > 0:
+                    res.see("nothing_admissible")
+                    return True
+                total = float(np.cumsum(w)[-1])
+                res.see("multi_task_draws_from_other_task")
         # which slot holds that row (observation rows are unique per slot:
         # [id, 0] for a transition, [id, 1] for a filler row)
         store = np.asarray(b.buffer["observation"][: len(b)], dtype=np.float32)
@@ -450,6 +464,8 @@ class _Force:
 
     def choice(self, a, size=None, **kw):
         a = np.asarray(a)
+        if a.ndim == 0:  # NumPy semantics: choice(n) draws from arange(n)
+            a = np.arange(int(a))
         val = self.t if self.t in a.tolist() else a[0]
         return val if size is None else np.full(size, val)
 
